@@ -84,6 +84,14 @@ inductive Expr where
   | neg (e : Expr)
   /-- `x [NOT] BETWEEN lo AND hi` -/
   | btw (negated : Bool) (x lo hi : Expr)
+  /-- `CASE WHEN c THEN r ELSE e END`; a list of rules is the nested chain, no ELSE is `ELSE NULL` -/
+  | ite (c r e : Expr)
+  /-- `CAST(e AS <integer type>)` (values of the fragment are integers or NULL) -/
+  | cast (e : Expr)
+  /-- `x [NOT] IN (items)`; `items` is a `tnil` / `tcons` chain (the AST's `Tuple` node) -/
+  | inl (negated : Bool) (x items : Expr)
+  | tnil
+  | tcons (e rest : Expr)
   deriving DecidableEq, Repr
 
 /-- what is fixed outside the statement: the engine's LIKE and its default NULL position -/
@@ -112,6 +120,11 @@ def evalAr : Ar → Val → Val → Val
     | some x, some y => if y = 0 then none else some (Int.tmod x y)
     | _, _ => none
 
+/-- SQL `x IN (v₁, …, vₙ)`: the three-valued disjunction of `x = vᵢ` -/
+def inSem (x : Val) (vs : List Val) : Val :=
+  vs.foldr (fun v acc => or3 (lift2 (fun a b => a == b) x v) acc) (ofBool false)
+
+mutual
 def eval (env : Env) (ρ : Nat → Val) : Expr → Val
   | .null => none
   | .int n => some n
@@ -126,6 +139,18 @@ def eval (env : Env) (ρ : Nat → Val) : Expr → Val
     let v := and3 (evalCmp env .ge (eval env ρ x) (eval env ρ lo))
                   (evalCmp env .le (eval env ρ x) (eval env ρ hi))
     if n then not3 v else v
+  | .ite c r e => if truth (eval env ρ c) == some true then eval env ρ r else eval env ρ e
+  | .cast e => eval env ρ e
+  | .inl n x items =>
+    if n then not3 (inSem (eval env ρ x) (evalItems env ρ items))
+    else inSem (eval env ρ x) (evalItems env ρ items)
+  | .tnil => none
+  | .tcons e _ => eval env ρ e
+/-- values of the items of a tuple chain -/
+def evalItems (env : Env) (ρ : Nat → Val) : Expr → List Val
+  | .tcons e rest => eval env ρ e :: evalItems env ρ rest
+  | _ => []
+end
 
 /-- the operator `BinaryExpression._negate` switches to (generated table, pinned in Props) -/
 def Cmp.saNeg : Cmp → Cmp
@@ -139,6 +164,7 @@ def Cmp.saNeg : Cmp → Cmp
 def saInvert : Expr → Expr
   | .cmp o l r => .cmp o.saNeg l r
   | .btw n x lo hi => .btw (!n) x lo hi
+  | .inl n x items => .inl (!n) x items
   | e => .not e
 
 /-- the expression the rendered text denotes -/
@@ -153,12 +179,19 @@ def saNormE : Expr → Expr
   | .not e => saInvert (saNormE e)
   | .neg e => .neg (saNormE e)
   | .btw n x lo hi => .btw n (saNormE x) (saNormE lo) (saNormE hi)
+  | .ite c r e => .ite (saNormE c) (saNormE r) (saNormE e)
+  | .cast e => .cast (saNormE e)
+  | .inl n x items => .inl n (saNormE x) (saNormE items)
+  | .tnil => .tnil
+  | .tcons e rest => .tcons (saNormE e) (saNormE rest)
 
 /-- SQLAlchemy's static type of the element (only its being Boolean matters): columns and NULL are
 `NullType`, integer literals `Integer`; an arithmetic result takes the left operand's type, except
 that `NullType` defers to the right operand for the commutative `+` and `*` -/
 inductive Ty where
   | bool | int | null
+  /-- not modelled (CASE takes the type of one of its branches) -/
+  | unk
   deriving DecidableEq, Repr
 
 def tyOf : Expr → Ty
@@ -171,33 +204,50 @@ def tyOf : Expr → Ty
   | .not _ => .bool
   | .btw _ _ _ _ => .bool
   | .neg e => tyOf e
+  | .ite _ _ _ => .unk
+  | .cast _ => .int
+  | .inl _ _ _ => .bool
+  | .tnil => .unk
+  | .tcons _ _ => .unk
   | .ar o l r =>
     match tyOf l with
     | .bool => .bool
     | .int => .int
+    | .unk => .unk
     | .null => if o = .add ∨ o = .mul then tyOf r else .null
 
-/-- arithmetic whose SQLAlchemy type is Boolean: `NOT` of it is printed by the sqlite compiler as
+/-- arithmetic whose SQLAlchemy type is Boolean (or a CASE, whose type is not modelled): `NOT` of it is printed by the sqlite compiler as
 `(x) = 0` (`AsBoolean … is_false`), which this model does not reproduce (same value; the execution
 probe covers it) -/
 def typedArith : Expr → Bool
-  | .ar o l r => tyOf (.ar o l r) == .bool
-  | .neg e => tyOf e == .bool
+  | .ar o l r => tyOf (.ar o l r) == .bool || tyOf (.ar o l r) == .unk
+  | .neg e => tyOf e == .bool || tyOf e == .unk
+  | .ite _ _ _ => true
   | _ => false
 
-/-- the modelled fragment: no `NOT` stands directly over Boolean-typed arithmetic (after
-normalisation of the operand) -/
+def isIte : Expr → Bool
+  | .ite _ _ _ => true
+  | _ => false
+
+/-- the modelled fragment: no `NOT` stands directly over Boolean-typed arithmetic or a CASE (after
+normalisation of the operand), and no CASE is a direct operand of AND / OR (SQLAlchemy prints a
+Boolean-typed CASE there as `CASE … END = 1`) -/
 def okE : Expr → Bool
   | .null => true
   | .int _ => true
   | .col _ => true
   | .cmp _ l r => okE l && okE r
   | .ar _ l r => okE l && okE r
-  | .and l r => okE l && okE r
-  | .or l r => okE l && okE r
+  | .and l r => okE l && okE r && !isIte l && !isIte r
+  | .or l r => okE l && okE r && !isIte l && !isIte r
   | .not e => okE e && !typedArith (saNormE e)
   | .neg e => okE e
   | .btw _ x lo hi => okE x && okE lo && okE hi
+  | .ite c r e => okE c && okE r && okE e
+  | .cast e => okE e
+  | .inl _ x items => okE x && okE items
+  | .tnil => true
+  | .tcons e rest => okE e && okE rest
 
 /-! ### relations and joins -/
 
@@ -393,8 +443,31 @@ inductive SetOp where
   | union | intersect | except
   deriving DecidableEq, Repr
 
+/-! aggregation: `SELECT <targets> FROM … WHERE … GROUP BY <keys> HAVING <aggregate> <cmp> <n>` -/
+
+inductive AggFn where
+  | count | sum | min | max
+  deriving DecidableEq, Repr
+
+/-- a target of a grouped select: an expression over the group's first row (group keys), an
+aggregate over the group, or `count(*)` -/
+inductive TExpr where
+  | plain (e : Expr)
+  | agg (f : AggFn) (e : Expr)
+  | countStar
+  deriving Repr
+
+structure GSelect where
+  targets : List TExpr
+  from_ : From
+  where_ : Option Expr
+  groupBy : List Expr
+  having : Option (TExpr × Cmp × Int)
+  deriving Repr
+
 inductive Query where
   | select (s : Select)
+  | gselect (g : GSelect)
   | setop (op : SetOp) (unique : Bool) (l r : Query)
   deriving Repr
 
@@ -423,8 +496,41 @@ def evalSelect (env : Env) (db : Db) (s : Select) : Table :=
   let out := match s.offset with | none => out | some n => out.drop n
   match s.limit with | none => out | some n => out.take n
 
+/-- SQL aggregates ignore NULLs; `sum` / `min` / `max` of no value is NULL -/
+def aggVal : AggFn → List Val → Val
+  | .count, vs => some ((vs.filterMap id).length : Nat)
+  | .sum, vs => match vs.filterMap id with | [] => none | x :: xs => some (xs.foldl (· + ·) x)
+  | .min, vs => match vs.filterMap id with | [] => none | x :: xs => some (xs.foldl min x)
+  | .max, vs => match vs.filterMap id with | [] => none | x :: xs => some (xs.foldl max x)
+
+def evalT (env : Env) (g : Table) : TExpr → Val
+  | .plain e => match g with | [] => none | r :: _ => eval env (rowEnv r) e
+  | .agg f e => aggVal f (g.map fun r => eval env (rowEnv r) e)
+  | .countStar => some (g.length : Nat)
+
+def groupKey (env : Env) (ks : List Expr) (r : Row) : Row := ks.map fun k => eval env (rowEnv r) k
+
+/-- groups in order of first occurrence; without GROUP BY the whole input is one group (even if empty) -/
+def groupsOf (env : Env) (ks : List Expr) (rows : Table) : List Table :=
+  if ks.isEmpty then [rows]
+  else (dedup (rows.map (groupKey env ks))).map fun k => rows.filter fun r => groupKey env ks r == k
+
+def havingOk (env : Env) (g : Table) (h : TExpr × Cmp × Int) : Bool :=
+  truth (evalCmp env h.2.1 (evalT env g h.1) (some h.2.2)) == some true
+
+def havingGroups (env : Env) : Option (TExpr × Cmp × Int) → List Table → List Table
+  | none, gs => gs
+  | some h, gs => gs.filter fun grp => havingOk env grp h
+
+def evalGSelect (env : Env) (db : Db) (g : GSelect) : Table :=
+  let rows := whereRows env g.where_ (evalFrom env db g.from_)
+  let gs := groupsOf env g.groupBy rows
+  let gs := havingGroups env g.having gs
+  gs.map fun grp => g.targets.map (evalT env grp)
+
 def evalQuery (env : Env) (db : Db) : Query → Table
   | .select s => evalSelect env db s
+  | .gselect g => evalGSelect env db g
   | .setop op u l r =>
     let a := evalQuery env db l
     let b := evalQuery env db r
@@ -446,13 +552,28 @@ def saSelect (s : Select) : Select :=
     limit := s.limit
     offset := s.offset }
 
+def saT : TExpr → TExpr
+  | .plain e => .plain (saNormE e)
+  | .agg f e => .agg f (saNormE e)
+  | .countStar => .countStar
+
+/-- `prepare_select` on a grouped select (functions are labelled with their name: no effect on rows) -/
+def saGSelect (g : GSelect) : GSelect :=
+  { targets := g.targets.map saT
+    from_ := saFrom g.from_
+    where_ := g.where_.map saNormE
+    groupBy := g.groupBy.map saNormE
+    having := g.having.map fun h => (saT h.1, h.2.1, h.2.2) }
+
 /-- `prepare_union`: `sa.union` / `union_all` / `intersect` / … chosen from the class and `unique` -/
 def saNorm : Query → Query
   | .select s => .select (saSelect s)
+  | .gselect g => .gselect (saGSelect g)
   | .setop op u l r => .setop op u (saNorm l) (saNorm r)
 
 def raisesQ : Query → Bool
   | .select s => raisesFrom s.from_
+  | .gselect g => raisesFrom g.from_
   | .setop _ _ l r => raisesQ l || raisesQ r
 
 /-- `get_string(ast)` with the default `with_failback=True`: when the renderer raises
@@ -463,8 +584,18 @@ def okSelect (s : Select) : Bool :=
   okFrom s.from_ && s.targets.all (fun t => okE t.e) &&
     (match s.where_ with | none => true | some c => okE c) && s.order.all (fun k => okE k.e)
 
+def okT : TExpr → Bool
+  | .plain e => okE e
+  | .agg _ e => okE e
+  | .countStar => true
+
+def okGSelect (g : GSelect) : Bool :=
+  okFrom g.from_ && g.targets.all okT && (match g.where_ with | none => true | some c => okE c) &&
+    g.groupBy.all okE && (match g.having with | none => true | some h => okT h.1)
+
 def okQ : Query → Bool
   | .select s => okSelect s
+  | .gselect g => okGSelect g
   | .setop _ _ l r => okQ l && okQ r
 
 /-! ### INSERT … VALUES / UPDATE / DELETE -/
